@@ -1,8 +1,229 @@
-//! C03 runner (stub). Replace the body; keep the signature `pub fn run(args: &[String])`.
-#[allow(unused_imports)]
-use crate::common::{catch, each_line, opt_i64};
+//! C03: run the REAL front end (lexer + parser + TypeChecker::check_with_imports) on a program.
+//!
+//! Input: one JSON object per line: `{"main": "<source>", "deps": [["modname", "<source>"], ...]}`.
+//! Output: one JSON object per line:
+//!   `{"parse":"ok","tree":[decl...],"errors":[[start,end,"kind","message"],...]}`
+//!   `{"parse":"lex"|"parse"|"dep-lex"|"dep-parse","errors":[[start,end,kind,message]...]}` when the source does not parse
+//!   `{"parse":"panic","message":"..."}` if the front end panicked.
+//! `tree` is the span skeleton of the parsed main module: every declaration / statement /
+//! expression as `{"k":kind,"s":start,"e":end,"n":name?,"c":[children...]}` in source order.  The
+//! check script zips it with its own tree to learn the real span of every node id (and thereby
+//! validates that the rendered text parses to the intended tree).
+use crate::common::{catch, each_line};
+use incan::frontend::ast::*;
+use incan::frontend::diagnostics::CompileError;
+use incan::frontend::{lexer, parser, typechecker};
+use serde_json::{json, Value};
+
+fn node(k: &str, span: Span, name: Option<&str>, c: Vec<Value>) -> Value {
+    match name {
+        Some(n) => json!({"k": k, "s": span.start, "e": span.end, "n": n, "c": c}),
+        None => json!({"k": k, "s": span.start, "e": span.end, "c": c}),
+    }
+}
+
+fn args(a: &[CallArg]) -> Vec<Value> {
+    a.iter()
+        .map(|x| match x {
+            CallArg::Positional(e) => expr(e),
+            CallArg::Named(n, e) => {
+                let inner = expr(e);
+                json!({"k": "named", "s": e.span.start, "e": e.span.end, "n": n, "c": [inner]})
+            }
+        })
+        .collect()
+}
+
+fn lit(l: &Literal) -> &'static str {
+    match l {
+        Literal::Int(_) => "int",
+        Literal::Float(_) => "float",
+        Literal::String(_) => "str",
+        Literal::Bytes(_) => "bytes",
+        Literal::Bool(_) => "bool",
+        Literal::None => "none",
+    }
+}
+
+fn pattern(p: &Spanned<Pattern>) -> Value {
+    match &p.node {
+        Pattern::Wildcard => node("p_wild", p.span, None, vec![]),
+        Pattern::Binding(n) => node("p_bind", p.span, Some(n), vec![]),
+        Pattern::Literal(l) => node("p_lit", p.span, Some(lit(l)), vec![]),
+        Pattern::Constructor(n, subs) => node("p_ctor", p.span, Some(n), subs.iter().map(pattern).collect()),
+        Pattern::Tuple(subs) => node("p_tuple", p.span, None, subs.iter().map(pattern).collect()),
+    }
+}
+
+fn expr(e: &Spanned<Expr>) -> Value {
+    let s = e.span;
+    match &e.node {
+        Expr::Ident(n) => node("ident", s, Some(n), vec![]),
+        Expr::Literal(l) => node("lit", s, Some(lit(l)), vec![]),
+        Expr::SelfExpr => node("self", s, None, vec![]),
+        Expr::Binary(l, op, r) => node("binary", s, Some(&op.to_string()), vec![expr(l), expr(r)]),
+        Expr::Unary(op, o) => node(
+            "unary",
+            s,
+            Some(match op {
+                UnaryOp::Neg => "-",
+                UnaryOp::Not => "not",
+            }),
+            vec![expr(o)],
+        ),
+        Expr::Call(c, a) => {
+            let mut ch = vec![expr(c)];
+            ch.extend(args(a));
+            node("call", s, None, ch)
+        }
+        Expr::Field(b, f) => node("field", s, Some(f), vec![expr(b)]),
+        Expr::MethodCall(b, m, a) => {
+            let mut ch = vec![expr(b)];
+            ch.extend(args(a));
+            node("methodcall", s, Some(m), ch)
+        }
+        Expr::Try(i) => node("try", s, None, vec![expr(i)]),
+        Expr::Paren(i) => node("paren", s, None, vec![expr(i)]),
+        Expr::Constructor(n, a) => node("ctor", s, Some(n), args(a)),
+        Expr::Match(subj, arms) => {
+            let mut ch = vec![expr(subj)];
+            for a in arms {
+                let mut ac = vec![pattern(&a.node.pattern)];
+                if let Some(g) = &a.node.guard {
+                    ac.push(node("guard", g.span, None, vec![expr(g)]));
+                }
+                match &a.node.body {
+                    MatchBody::Expr(b) => ac.push(node("armexpr", b.span, None, vec![expr(b)])),
+                    MatchBody::Block(b) => ac.push(node("armblock", a.span, None, b.iter().map(stmt).collect())),
+                }
+                ch.push(node("arm", a.span, None, ac));
+            }
+            node("match", s, None, ch)
+        }
+        _ => node("other_expr", s, None, vec![]),
+    }
+}
+
+fn block(k: &str, b: &[Spanned<Statement>]) -> Value {
+    let span = match (b.first(), b.last()) {
+        (Some(f), Some(l)) => f.span.merge(l.span),
+        _ => Span::default(),
+    };
+    node(k, span, None, b.iter().map(stmt).collect())
+}
+
+fn stmt(st: &Spanned<Statement>) -> Value {
+    let s = st.span;
+    match &st.node {
+        Statement::Assignment(a) => {
+            let k = match a.binding {
+                BindingKind::Inferred => "assign",
+                BindingKind::Let => "let",
+                BindingKind::Mutable => "mut",
+                BindingKind::Reassign => "reassign",
+            };
+            let name = if a.ty.is_some() { format!("{}:", a.name) } else { a.name.clone() };
+            node(k, s, Some(&name), vec![expr(&a.value)])
+        }
+        Statement::CompoundAssignment(c) => node("compound", s, Some(&c.name), vec![expr(&c.value)]),
+        Statement::Return(e) => node("return", s, None, e.iter().map(expr).collect()),
+        Statement::If(i) => {
+            let mut ch = vec![expr(&i.condition), block("then", &i.then_body)];
+            for (c, b) in &i.elif_branches {
+                ch.push(node("elif", c.span, None, vec![expr(c), block("elifbody", b)]));
+            }
+            if let Some(b) = &i.else_body {
+                ch.push(block("else", b));
+            }
+            node("if", s, None, ch)
+        }
+        Statement::While(w) => node("while", s, None, vec![expr(&w.condition), block("body", &w.body)]),
+        Statement::For(f) => node("for", s, Some(&f.var), vec![expr(&f.iter), block("body", &f.body)]),
+        Statement::Expr(e) => node("exprstmt", s, None, vec![expr(e)]),
+        Statement::Pass => node("pass", s, None, vec![]),
+        Statement::Break => node("break", s, None, vec![]),
+        Statement::Continue => node("continue", s, None, vec![]),
+        _ => node("other_stmt", s, None, vec![]),
+    }
+}
+
+fn method(m: &Spanned<MethodDecl>) -> Value {
+    let body = m.node.body.as_ref().map(|b| b.iter().map(stmt).collect()).unwrap_or_default();
+    node(if m.node.body.is_some() { "method" } else { "absmethod" }, m.span, Some(&m.node.name), body)
+}
+
+fn decl(d: &Spanned<Declaration>) -> Value {
+    let s = d.span;
+    match &d.node {
+        Declaration::Function(f) => node("fn", s, Some(&f.name), f.body.iter().map(stmt).collect()),
+        Declaration::Enum(e) => node("enum", s, Some(&e.name), vec![]),
+        Declaration::Model(m) => {
+            let mut ch: Vec<Value> = m.traits.iter().map(|t| node("with", t.span, Some(&t.node), vec![])).collect();
+            for f in &m.fields {
+                ch.push(node("fielddecl", f.span, Some(&f.node.name), vec![node("fieldty", f.node.ty.span, None, vec![])]));
+            }
+            ch.extend(m.methods.iter().map(method));
+            node("model", s, Some(&m.name), ch)
+        }
+        Declaration::Class(m) => {
+            let mut ch: Vec<Value> = m.traits.iter().map(|t| node("with", t.span, Some(&t.node), vec![])).collect();
+            for f in &m.fields {
+                ch.push(node("fielddecl", f.span, Some(&f.node.name), vec![node("fieldty", f.node.ty.span, None, vec![])]));
+            }
+            ch.extend(m.methods.iter().map(method));
+            node("class", s, Some(&m.name), ch)
+        }
+        Declaration::Trait(t) => node("trait", s, Some(&t.name), t.methods.iter().map(method).collect()),
+        Declaration::Import(_) => node("import", s, None, vec![]),
+        Declaration::Const(c) => node("const", s, Some(&c.name), vec![expr(&c.value)]),
+        _ => node("other_decl", s, None, vec![]),
+    }
+}
+
+fn errs(v: &[CompileError]) -> Vec<Value> {
+    v.iter().map(|e| json!([e.span.start, e.span.end, e.kind.to_string(), e.message])).collect()
+}
+
+fn parse_src(src: &str) -> Result<Program, (&'static str, Vec<CompileError>)> {
+    let toks = lexer::lex(src).map_err(|e| ("lex", e))?;
+    parser::parse(&toks).map_err(|e| ("parse", e))
+}
+
+fn one(line: &str) -> Value {
+    let v: Value = match serde_json::from_str(line) {
+        Ok(v) => v,
+        Err(e) => return json!({"parse": "bad-input", "message": e.to_string()}),
+    };
+    let main_src = v["main"].as_str().unwrap_or("").to_string();
+    let mut deps: Vec<(String, Program)> = Vec::new();
+    if let Some(ds) = v["deps"].as_array() {
+        for d in ds {
+            let name = d[0].as_str().unwrap_or("dep").to_string();
+            match parse_src(d[1].as_str().unwrap_or("")) {
+                Ok(p) => deps.push((name, p)),
+                Err((k, e)) => return json!({"parse": format!("dep-{}", k), "errors": errs(&e)}),
+            }
+        }
+    }
+    let main = match parse_src(&main_src) {
+        Ok(p) => p,
+        Err((k, e)) => return json!({"parse": k, "errors": errs(&e)}),
+    };
+    let tree: Vec<Value> = main.declarations.iter().map(decl).collect();
+    let dep_refs: Vec<(&str, &Program)> = deps.iter().map(|(n, p)| (n.as_str(), p)).collect();
+    let mut tc = typechecker::TypeChecker::new();
+    // exactly what cli::commands::check_file does after collect_modules
+    let res = tc.check_with_imports(&main, &dep_refs);
+    let e = match res {
+        Ok(()) => vec![],
+        Err(es) => errs(&es),
+    };
+    json!({"parse": "ok", "tree": tree, "errors": e})
+}
 
 pub fn run(_args: &[String]) {
-    eprintln!("c03: runner not implemented");
-    std::process::exit(2);
+    each_line(|line| match catch(|| one(line)) {
+        Ok(v) => v.to_string(),
+        Err(msg) => json!({"parse": "panic", "message": msg}).to_string(),
+    });
 }
